@@ -238,16 +238,18 @@ impl SourceView {
                 idx += c.len_utf16();
             }
 
+            // `col + span` can exceed `u32::MAX`
+            let end = u64::from(col) + u64::from(span);
             let mut off_end = off;
             for c in char_iter {
-                if idx >= (col + span) as usize {
+                if idx as u64 >= end {
                     break;
                 }
                 off_end += c.len_utf8();
                 idx += c.len_utf16();
             }
 
-            if idx < ((col + span) as usize) {
+            if (idx as u64) < end {
                 None
             } else {
                 line.get(off..off_end)
